@@ -74,14 +74,20 @@ func main() {
 				code = 2
 			}
 		}()
+		rep := core.NewReport(*prop, *tier, seed)
 		p, err := core.Load(core.LoadOpts{Repo: *repo})
 		if err != nil {
 			fmt.Println("ERROR:", err)
 			return 2
 		}
-		rep := core.NewReport(*prop, *tier, seed)
+		rep.Count("packages_loaded", len(p.Pkgs))
+		rep.Count("ssa_functions_whole_program", len(p.AllFuncs))
+		rep.Count("scope_functions", len(p.ScopeFuncs()))
 		ctx := &rules.Ctx{P: p, R: rep, Tier: *tier, Repo: *repo, Verif: *verif}
 		run(ctx)
+		if *tier == "thorough" {
+			rules.Thorough(ctx, *prop, os.Args[0])
+		}
 		return rep.Finish(*verif, replayKey)
 	}()
 	os.Exit(code)
